@@ -14,7 +14,6 @@ package main
 
 import (
 	"fmt"
-	"sort"
 	"strconv"
 	"strings"
 	"time"
@@ -94,10 +93,15 @@ func hdrSize(n int) int {
 	return 8
 }
 
-func execGraph(rep byte, n int, es []edge) hx.Result {
+func execGraph(rep string, n int, es []edge) hx.Result {
 	var res hx.Result
 	es = cleanEdges(n, es)
-	g := codecobs.Build(rep, n, es)
+	g, okProv := codecobs.BuildProv(rep, n, es)
+	if !okProv {
+		// the library did not deliver this graph in that way (not the codecs' business): plain value
+		res.Buckets = append(res.Buckets, "provenance-unavailable:"+rep)
+		g = codecobs.Build('d', n, es)
+	}
 	want := "ok:" + codecobs.DescrOf(n, es)
 	var sb strings.Builder
 	res.Nontrivial = len(es) > 0
@@ -144,7 +148,7 @@ func execGraph(rep byte, n int, es []edge) hx.Result {
 	if after := "ok:" + codecobs.Descr(g); after != want {
 		fail("C07:argument-modified", "the encoders changed their argument: %s, was %s", after, want)
 	}
-	res.Buckets = append(res.Buckets, fmt.Sprintf("rep=%c", rep), fmt.Sprintf("n<=%d", bucket(n)))
+	res.Buckets = append(res.Buckets, "rep="+rep, fmt.Sprintf("n<=%d", bucket(n)))
 	res.Obs = sb.String()
 	return res
 }
@@ -157,44 +161,6 @@ func kBucket(k int) string {
 		return "<5"
 	}
 	return ">5"
-}
-
-// stubGraph is a Graph with n vertices and the edges es, built without allocating per vertex.
-type stubGraph struct {
-	n  int
-	nb map[int][]int
-	m  int
-}
-
-func newStub(n int, es []edge) *stubGraph {
-	g := &stubGraph{n: n, nb: map[int][]int{}}
-	for _, e := range es {
-		g.nb[e.V] = append(g.nb[e.V], e.U)
-		g.nb[e.U] = append(g.nb[e.U], e.V)
-		g.m++
-	}
-	for v := range g.nb {
-		sort.Ints(g.nb[v])
-	}
-	return g
-}
-func (g *stubGraph) N() int { return g.n }
-func (g *stubGraph) M() int { return g.m }
-func (g *stubGraph) IsEdge(i, j int) bool {
-	for _, u := range g.nb[i] {
-		if u == j {
-			return true
-		}
-	}
-	return false
-}
-func (g *stubGraph) Neighbours(v int) []int { return g.nb[v] }
-func (g *stubGraph) Degrees() []int {
-	d := make([]int, g.n)
-	for v, l := range g.nb {
-		d[v] = len(l)
-	}
-	return d
 }
 
 const maxStubGraph6 = 5000
@@ -221,7 +187,7 @@ func execStub(n int, es []edge) hx.Result {
 	es = cleanEdges(n, es)
 	res.Nontrivial = true
 	fail := func(key, f string, a ...interface{}) { res.Viol = append(res.Viol, hx.Fail(key, f, a...)) }
-	g := newStub(n, es)
+	g := codecobs.NewStub(n, es)
 	hl := hdrSize(n)
 	want := specText(n, es, true)
 	var sb strings.Builder
@@ -289,7 +255,7 @@ func exec(line string) hx.Result {
 	switch {
 	case len(head) == 3 && head[0] == "G":
 		n, _ := strconv.Atoi(head[2])
-		return execGraph(head[1][0], n, codecobs.ParseEdges(toks))
+		return execGraph(head[1], n, codecobs.ParseEdges(toks))
 	case len(head) == 2 && head[0] == "H":
 		n, _ := strconv.Atoi(head[1])
 		return execStub(n, codecobs.ParseEdges(toks))
@@ -313,24 +279,29 @@ func randGraph(r *hx.Rng, n int, num, den int) []edge {
 
 func gen(g *hx.Gen) {
 	r := g.Rng
-	reps := []byte{'d', 's'}
-	graphCase := func(kind string, rep byte, n int, es []edge) {
-		g.Emit(fmt.Sprintf("%s %c %d;%s", kind, rep, n, codecobs.EdgeTokens(es)))
+	provs := codecobs.Provenances
+	graphCase := func(kind string, rep string, n int, es []edge) {
+		g.Emit(fmt.Sprintf("%s %s %d;%s", kind, rep, n, codecobs.EdgeTokens(es)))
 	}
-	both := func(n int, es []edge) {
-		for _, rep := range reps {
+	anyRep := func() string { return provs[r.Intn(len(provs))] }
+	// every representation and provenance of one abstract graph
+	all := func(n int, es []edge) {
+		for _, rep := range provs {
 			graphCase("G", rep, n, es)
 		}
 	}
+	both := all
 	// corpus: the inputs on which the pinned tree failed (KNOWN_FINDINGS.txt)
 	both(0, nil)
 	both(1, nil)
 	both(2, nil)
 	both(2, []edge{{1, 0}})
-	both(4, []edge{{2, 0}, {2, 1}})          // CW: the padding exception with exactly k+1 bits left
-	both(20, []edge{{1, 0}, {19, 18}})       // 17 <= n <= 32: pairs of exactly 6 bits
-	both(3, []edge{{2, 1}})                  // Multicode graph using the last vertex
-	// exhaustive: every labelled graph on at most 5 vertices
+	both(4, []edge{{2, 0}, {2, 1}})    // CW: the padding exception with exactly k+1 bits left
+	both(20, []edge{{1, 0}, {19, 18}}) // 17 <= n <= 32: pairs of exactly 6 bits
+	both(3, []edge{{2, 1}})
+	// exhaustive: every labelled graph on at most 5 vertices; n <= 4 in every provenance, n = 5
+	// dense, sparse, weighted dense and one more provenance in rotation
+	idx := 0
 	for n := 0; n <= 5; n++ {
 		t := n * (n - 1) / 2
 		for mask := 0; mask < 1<<uint(t); mask++ {
@@ -344,34 +315,64 @@ func gen(g *hx.Gen) {
 					p++
 				}
 			}
-			both(n, es)
+			if n <= 4 {
+				all(n, es)
+			} else {
+				graphCase("G", "d", n, es)
+				graphCase("G", "s", n, es)
+				graphCase("G", "w", n, es)
+				graphCase("G", provs[3+idx%(len(provs)-3)], n, es)
+				idx++
+			}
 		}
 	}
-	g.Exhaustive("all labelled graphs on n <= 5 vertices, dense and sparse representation, through graph6 and sparse6")
+	g.Exhaustive("all labelled graphs on n <= 5 vertices through graph6 and sparse6: n <= 4 in every provenance (dense 0/1, dense with arbitrary non-zero bytes, sparse sorted/unsorted, edited, copies, induced copies, views, nested views, decoder results, ChromaticIndex arrays, user-defined), n = 5 dense, sparse, weighted and one more in rotation")
+	// named graphs of the generators, in every provenance (sizes around the capacity boundaries)
+	for _, n := range []int{3, 7, 8, 9, 15, 16, 17, 31, 32, 33} {
+		var path, cyc, star, comp []edge
+		for v := 1; v < n; v++ {
+			path = append(path, edge{v, v - 1})
+			star = append(star, edge{v, 0})
+			for u := 0; u < v; u++ {
+				comp = append(comp, edge{v, u})
+			}
+		}
+		cyc = cleanEdges(n, append(append([]edge(nil), path...), edge{n - 1, 0}))
+		for _, es := range [][]edge{path, cyc, star, comp} {
+			if g.Thorough() || n <= 9 {
+				all(n, es)
+			} else {
+				for c := 0; c < 4; c++ {
+					graphCase("G", anyRep(), n, es)
+				}
+				graphCase("G", "w", n, es)
+			}
+		}
+	}
 	dens := [][2]int{{0, 1}, {1, 20}, {3, 10}, {1, 2}, {1, 1}}
 	// random graphs n <= 40 at the five densities
 	for i := 0; i < g.Pick(600, 20000); i++ {
 		n := r.Range(2, 40)
 		d := dens[r.Intn(len(dens))]
-		graphCase("G", reps[r.Intn(2)], n, randGraph(r, n, d[0], d[1]))
+		graphCase("G", anyRep(), n, randGraph(r, n, d[0], d[1]))
 	}
 	// 17 <= n <= 32: sparse6 pairs of exactly 6 bits, every stream ends on a byte boundary
 	for i := 0; i < g.Pick(300, 8000); i++ {
 		n := r.Range(17, 32)
 		d := dens[1+r.Intn(4)]
-		graphCase("G", reps[r.Intn(2)], n, randGraph(r, n, d[0], d[1]))
+		graphCase("G", anyRep(), n, randGraph(r, n, d[0], d[1]))
 	}
 	// the sizes around the 1-byte / 4-byte header
 	for _, n := range []int{62, 63, 64, 100} {
 		for i := 0; i < g.Pick(3, 40); i++ {
 			d := dens[r.Intn(len(dens))]
-			graphCase("G", reps[r.Intn(2)], n, randGraph(r, n, d[0], d[1]))
+			graphCase("G", anyRep(), n, randGraph(r, n, d[0], d[1]))
 		}
 		both(n, nil)
 	}
 	if g.Thorough() {
 		for _, n := range []int{128, 129, 255, 256, 300} {
-			graphCase("G", reps[r.Intn(2)], n, randGraph(r, n, 1, 20))
+			graphCase("G", anyRep(), n, randGraph(r, n, 1, 20))
 		}
 	}
 	// n a power of two, vertex n-2 used and n-1 isolated (the padding exception of sparse6),
@@ -394,7 +395,7 @@ func gen(g *hx.Gen) {
 			if r.Chance(1, 6) {
 				es = append(es, edge{n - 1, r.Intn(n - 1)}) // sometimes n-1 is used after all
 			}
-			graphCase("G", reps[r.Intn(2)], n, cleanEdges(n, es))
+			graphCase("G", anyRep(), n, cleanEdges(n, es))
 		}
 	}
 	// stub graphs: the 4-byte header at sizes where every byte of it is used, the 8-byte header
